@@ -110,7 +110,8 @@ def disk_other(X, spec):
         for d in (" ", ",", "::"):
             p = _p("sel.txt")
             xgi.write_edgelist(X, p, delimiter=d)
-            S2 = xgi.read_edgelist(p, delimiter=d, nodetype=int, create_using=xgi.SimplicialComplex)
+            S2 = xgi.read_edgelist(p, delimiter=d, nodetype=int if all(isinstance(n, int) for n in X.nodes) else None,
+                                   create_using=xgi.SimplicialComplex)
             if {frozenset(m) for m in S2.edges.members()} != {frozenset(m) for m in X.edges.members()}:
                 bad("edgelist", f"edge list of a complex (delimiter {d!r}) reads back different simplices")
     return out
